@@ -121,3 +121,31 @@ PROPS['C01'] = dict(
     level_note='RDF/JSON and the document-level round-trip theorem are in progress (see partial_theorems). Six fix: commits repaired defects in this area (ASCII range, truncated subject, language subtags, empty tag, absolute-IRI check, graph-name offsets).',
     partial=['document-level round trip decode (encode ds) = rename ds: token-level lemmas only so far'],
 )
+
+_ZOO_RULE = ('every decoder (ntriples, nquads, turtle, trig, rdfxml, rdfjson, jsonld, htmlrdfa, htmlmicrodata, htmljsonld, htmldefaults) in turn on: a hand-written corpus of fragile productions, '
+             'files of the W3C archives shipped in the repository (seeds), 1-4 byte-level mutations of them from a per-format token dictionary (delete / insert / duplicate / flip / truncate / swap / replace / repeat), '
+             'adversarial nesting and huge tokens, and mutations of those; x options (offsets on/off with initial offset, base present/absent, lax JSON, JSON-LD processing mode) x reader chunking (whole, 1 byte, random chunk sizes) '
+             'x reader ending (io.EOF / injected error, with or without data); non-trivial = input longer than 20 bytes; N-Triples/N-Quads inputs below 3 KB are also run through the decoder model')
+
+PROPS['C05'] = dict(
+    families=[dict(name='c05-zoo', quick=6000, thorough=400000)],
+    slice=40,
+    rule=_ZOO_RULE,
+    trusted_base=['model/NQ.v (N-Triples/N-Quads decoder, rune by rune) and model/Protocol.v (the Next/Err shapes as coded)',
+                  'wall-clock limit of 3 s + 2 s/KB per run stands in for "bounded time"; memory is not measured'],
+    assumptions=['XML / JSON / HTML tokenizers, JSON-LD expansion, RDFa and Microdata processing, Turtle and TriG scanners are exercised by the protocol driver only (no model yet)'],
+    explanation='totality and no-fuel-exhaustion theorem for the N-Triples/N-Quads decoder model, protocol theorems for the three iterator shapes; model = implementation on all N-Triples/N-Quads inputs; every decoder driven through the full protocol under recover() and a time limit',
+    level_text='Proof for the N-Triples/N-Quads decoder model (terminates on every input, verdict never out-of-fuel) and for the iterator protocol state machines; the remaining decoders are decided by the protocol driver on seeds, mutations and adversarial inputs (exploration).',
+    level_note='Two known findings: panics inside third-party offset bookkeeping (cursorio grapheme scan on invalid UTF-8; inspecthtml / missing node metadata) when offset capture is on. Fixes made: RDF/XML re-parse after error, JSON-LD nil element, Turtle/TriG prefixed-name panic.',
+)
+
+PROPS['C06'] = dict(
+    families=[dict(name='c06-zoo', quick=6000, thorough=400000)],
+    slice=40,
+    rule=_ZOO_RULE + '; every statement yielded (also before an error) is classified: nil-ness, dynamic types per position, blank node identity, datatype present, tag <=> rdf:langString / rdf:dirLangString, absoluteness for N-Triples/N-Quads and for Turtle/TriG under an absolute base',
+    trusted_base=['model/NQ.v; the classification function of the harness (zooWF)'],
+    assumptions=['for decoders other than N-Triples/N-Quads the property is explored, not proved'],
+    explanation='well-formedness theorem over all inputs for the N-Triples/N-Quads decoder model; classification oracle on every statement of every decoder',
+    level_text='Proof for N-Triples/N-Quads (every statement of every input, also before an error, is well-formed and absolute: C06_nq_wf); exploration by the classification oracle for the other nine decoders.',
+    level_note='Fixes made while building this check: empty language tags (N-Triples, N-Quads, Turtle, TriG, RDF/JSON, RDF/XML, JSON-LD), rdf:langString without tag, empty RDF/JSON datatype, Turtle/TriG collection subjects (nil subject).',
+)
